@@ -28,6 +28,8 @@ from flexstack.geonet.guc_extended_header import GUCExtendedHeader
 from flexstack.geonet.ls_extended_header import LSRequestExtendedHeader, LSReplyExtendedHeader
 from flexstack.geonet.mib import AreaForwardingAlgorithm
 import flexstack.geonet.router as router_mod
+import flexstack.geonet.location_table as loct_mod
+import dsched
 
 MODULES = ["Props.C08"] + __import__("gen_extract").bridge_modules("C08")   # + bridge lemmas of the functions py2lean could extract
 DRIVERS = ["LocT"]
@@ -629,6 +631,161 @@ def check_dpl(ctx):
                 ctx.mismatch("dpl.ring", list(inp), r, mo)
 
 
+# ------------------------------------------------------------------------------------------------ concurrent receptions
+#
+# Class: the FIRST packet (any kind) of a cold source is processed by one link-layer receive thread while another thread
+# works on the same location table (refresh_table, receptions of other sources, another packet of the same source).
+# Both run on the real Router under the deterministic scheduler harness/dsched.py (pre-emption before every
+# attribute/subscript/call bytecode of LocationTable / LocationTableEntry and at every lock acquire/release); the
+# schedules with at most `bound` pre-emptions are enumerated.  All operations of a case happen at ONE clock reading and
+# all packets are valid (timestamps within the lifetime, distinct per source, distinct sequence numbers), so the final
+# table the oracle expects does not depend on the order: the ordinary `Oracle` judges get_entry / get_neighbours after
+# the threads have finished (entry present with the newest PV, neighbour after a beacon / SHB).
+# Lean side: Props.C08.first_single_hop_present_every_schedule (all schedules, all environments) on the section shape
+# read from the source (Props.C08.new_packet_updates_inside_creation_section).
+
+_conc_codes = None
+
+
+def conc_codes():
+    global _conc_codes
+    if _conc_codes is None:
+        _conc_codes = [f.__code__ for cls in (loct_mod.LocationTable, loct_mod.LocationTableEntry)
+                       for f in vars(cls).values() if hasattr(f, "__code__")]
+    return _conc_codes
+
+
+def gen_conc(rng):
+    lifetime_s = rng.choice([1, 2, 5, 20])
+    L = lifetime_s * 1000
+    base = rng.choice([rng.randrange(10 ** 9, 10 ** 12), rng.randrange(3, 200) * W - rng.randrange(0, 3 * L)])
+    now = base + rng.randrange(0, 1000)
+    self_addr, a, third = addr_int(1), addr_int(10), addr_int(99)
+    others = [addr_int(11), addr_int(12)]
+    used_T, sn = set(), [0]
+
+    def stamp():
+        while True:
+            T = now + rng.choice([rng.randrange(-min(L - 1, 1500), 1), rng.randrange(1, 3001), 0, -(L - 1)])
+            if T not in used_T:
+                used_T.add(T)
+                return T
+
+    def pkt(kind, src):
+        sn[0] += 1
+        return ["pkt", kind, src, stamp(), gen_lat(rng), gen_lon(rng), sn[0], now]
+
+    pre = []
+    for o in others:
+        if rng.random() < 0.5:
+            pre.append(pkt(rng.choice(KINDS), o))
+    if rng.random() < 0.2:
+        pre.append(["ens", rng.choice(others + [third])])
+    first = rng.choice(["beacon", "shb", "beacon", "shb", "beacon", "shb", "tsb", "gbc", "gac", "guc", "ls_request", "ls_reply"])
+    t0 = [pkt(first, a)]
+    t1 = []
+    for _ in range(rng.choice([1, 1, 2])):
+        x = rng.random()
+        if x < 0.5:
+            t1.append(["ref", now])
+        elif x < 0.8:
+            t1.append(pkt(rng.choice(KINDS), rng.choice(others)))
+        else:
+            t1.append(pkt(rng.choice(KINDS), a))          # a second packet of the cold source itself, other thread
+    return {"kind": "conc", "self": self_addr, "lifetime_s": lifetime_s, "dpl": rng.choice([1, 2, 3, 8]), "base": base,
+            "now": now, "third": third, "pre": pre, "threads": [t0, t1]}
+
+
+class ConcRun:
+    """one execution of a `conc` case on the real Router under a scheduling policy"""
+
+    def __init__(self, case, clock, policy):
+        self.case = case
+        with dsched.patched([router_mod, loct_mod], extra={"Timer": _NoTimer}):
+            real = Real(clock, case["self"], case["lifetime_s"], case["dpl"], case["base"])
+            orc = Oracle(case["self"], case["lifetime_s"] * 1000, case["dpl"])
+            now = case["now"]
+            for op in case.get("pre", []):
+                self._do(real, op)
+            s = dsched.DSched(policy, line_files=(), opcode_codes=conc_codes(), max_steps=40000, line_points=False)
+            for ti, ops in enumerate(case["threads"]):
+                s.spawn((lambda ops=ops: [self._do(real, op) for op in ops]), name=f"T{ti}")
+            with rs.quiet():
+                s.run(timeout=30.0)
+            # the oracle: order-independent by construction of the case (see gen_conc)
+            allops = list(case.get("pre", [])) + [op for th in case["threads"] for op in th]
+            for op in allops:
+                if op[0] == "pkt":
+                    orc.pkt(op[1], op[2], op[3], op[4], op[5], op[6], now)
+                elif op[0] == "ref":
+                    orc.refresh(now)
+                elif op[0] == "ens" and op[1] not in orc.ent:
+                    orc.placeholder.add(op[1])
+            addrs = sorted({op[2] for op in allops if op[0] == "pkt"} | {op[1] for op in allops if op[0] == "ens"})
+            obs, nb = real.observe(addrs, now)
+            self.bad = [w for w, kf in orc.judge(obs, nb, now)]
+            if s.abort_reason:
+                self.bad.append(f"run aborted: {s.abort_reason} {s.deadlock or ''}")
+            for ts in s.threads:
+                if ts.exc is not None:
+                    self.bad.append(f"thread {ts.name} raised {type(ts.exc).__name__}: {ts.exc}")
+        self.steps = s.steps
+        self.choices = [c[0] for c in s.steps]
+
+    def _do(self, real, op):
+        if op[0] == "pkt":
+            _, kind, a, T, lat, lon, sn, now = op
+            real.pkt(kind, a, T % W, lat, lon, sn, now, self.case["third"])
+        elif op[0] == "ref":
+            real.ref(op[1])
+        elif op[0] == "ens":
+            real.ens(op[1])
+
+
+def check_conc(ctx, case, clock, bound, cap):
+    """enumerate the schedules of `case` with at most `bound` pre-emptions (at most `cap` runs); the first violating
+    schedule is reported with the schedule as part of the replay case"""
+    found = []
+
+    tried = [0]
+
+    def once(prefix):
+        if found:
+            return []
+        r = ConcRun(case, clock, dsched.Replay(prefix))
+        tried[0] += 1
+        ctx.evals()
+        ctx.cover("conc_schedules")
+        ctx.cover("conc_preemptions_%d" % min(dsched.preemptions(r.steps), 3))
+        if r.bad:
+            again = ConcRun(case, clock, dsched.Replay(r.choices))       # the schedule must reproduce
+            if again.bad:
+                found.append((r.choices, again.bad[0]))
+            else:
+                ctx.cover("conc_not_reproduced")
+        return r.steps
+
+    runs, exhausted = dsched.enumerate_schedules(once, bound, cap, ctx.rng)
+    ctx.cover("conc_cases")
+    ctx.cover("conc_first_" + case["threads"][0][0][1])
+    for op in case["threads"][1]:
+        ctx.cover("conc_other_" + (op[1] + ("_same_source" if op[2] == case["threads"][0][0][2] else "") if op[0] == "pkt" else op[0]))
+    if exhausted and not found:
+        ctx.cover("conc_cases_all_schedules_within_bound")
+    ctx.nontrivial(("conc", case["base"], case["now"], len(case["threads"][1]), bound))
+    if found:
+        sched, what = found[0]
+        ctx.violation(f"concurrent receptions (schedule {tried[0]} of the enumeration, {dsched.preemptions(ConcRun(case, clock, dsched.Replay(sched)).steps)} pre-emption(s)): {what}", dict(case, schedule=sched))
+    return bool(found)
+
+
+# the always-on scenario of the class: first beacon of a cold source || refresh_table (lifetime 20 s, beacon 40 ms old)
+CONC_FIXED = {"kind": "conc", "self": addr_int(1), "lifetime_s": 20, "dpl": 8, "base": 10 ** 11, "now": 10 ** 11 + 40,
+              "third": addr_int(99), "pre": [],
+              "threads": [[["pkt", "beacon", addr_int(10), 10 ** 11, 415000000, 21000000, 0, 10 ** 11 + 40]],
+                          [["ref", 10 ** 11 + 40]]]}
+
+
 # ------------------------------------------------------------------------------------------------ entry points
 
 def detect_lazy(clock):
@@ -671,6 +828,20 @@ def run(ctx):
                 if i == 0:
                     ctx.sample("history", {"self": case["self"], "lifetime_s": case["lifetime_s"], "ops": case["ops"][:6]})
             flush_model(ctx)
+            # concurrent receptions: the fixed scenario exhaustively at bound 1, random cases of the class capped
+            for name, c in corpus("C08"):
+                if c.get("kind") == "conc":
+                    r = ConcRun(c, clock, dsched.Replay(c.get("schedule", [])))
+                    ctx.evals()
+                    ctx.cover("corpus_cases")
+                    if r.bad:
+                        ctx.violation(f"corpus {name}: {r.bad[0]}", c)
+            check_conc(ctx, CONC_FIXED, clock, 1, ctx.scale(400, 4000))
+            for i in range(ctx.scale(6, 200)):
+                case = gen_conc(ctx.rng)
+                if i == 0:
+                    ctx.sample("concurrent", case)
+                check_conc(ctx, case, clock, ctx.scale(1, 2), ctx.scale(60, 600))
     finally:
         ctx.extra.pop("_eager", None)
         router_mod.Timer = threading.Timer
@@ -693,6 +864,12 @@ def search(ctx):
                     break
                 check_case(ctx, gen_chain(ctx.rng) if ctx.rng.random() < 0.15 else gen_history(ctx.rng, ctx.rng.randrange(5, 80)),
                            clock, use_model=False)
+            if not ctx.violations:          # thread interleavings: bound 2 on the fixed scenario, more random cases
+                check_conc(ctx, CONC_FIXED, clock, 2, ctx.scale(1500, 20000))
+            for _ in range(ctx.scale(25, 600)):
+                if ctx.violations:
+                    break
+                check_conc(ctx, gen_conc(ctx.rng), clock, ctx.scale(1, 2), ctx.scale(150, 1500))
     finally:
         ctx.model_ok = ok
         router_mod.Timer = threading.Timer
@@ -724,6 +901,16 @@ def replay(ctx, obj, quiet=False):
         if not quiet:
             print(f"check_duplicate_sn({case['sn']}) on {case['before']} (L={case['L']}): {r}, expected {want}")
         return r != want
+    if kind == "conc":
+        router_mod.Timer = _NoTimer
+        try:
+            with rs.VClock(1_700_000_000_000) as clock:
+                r = ConcRun(case, clock, dsched.Replay(case.get("schedule", [])))
+        finally:
+            router_mod.Timer = threading.Timer
+        if not quiet:
+            print(f"schedule with {dsched.preemptions(r.steps)} pre-emption(s), {len(r.steps)} branching steps: " + ("; ".join(r.bad) if r.bad else "property holds"))
+        return bool(r.bad)
     if kind == "hist":
         router_mod.Timer = _NoTimer
         try:
